@@ -571,6 +571,8 @@ PATCHES = [
     lambda rng, L, X: "addl $%d, %s(%%rip)" % (rng.randint(1, 99), rng.choice(L)),
     lambda rng, L, X: "movl $%d, %s+%d(%%rip)" % (fresh_imm(rng), rng.choice(L), rng.choice([4, 8])),
     lambda rng, L, X: "pushq %rax\n.cfi_adjust_cfa_offset 8\npopq %rax\n.cfi_adjust_cfa_offset -8",
+    lambda rng, L, X: (lambda t: "call %s\ncall %s" % (t, t))(rng.choice(L + X)),
+    lambda rng, L, X: (lambda t: "call %s\nnop\ncall %s\nnop" % (t, t))(rng.choice(L)),
     lambda rng, L, X: ".Lspin:\nnop\njne .Lspin",
     lambda rng, L, X: "movl $%d, %%eax\n.Ltail:" % fresh_imm(rng),
     lambda rng, L, X: ".Lspin:\nmovl $%d, %%eax\njne .Lspin\nnop" % fresh_imm(rng),
